@@ -172,7 +172,7 @@ func execBc(f []string) string {
 	if cls != "" {
 		return fmt.Sprintf("err %d %s", at, cls)
 	}
-	if n := len(offs); n >= 2 && isClosureOp(code[offs[n-2]]) && code[len(code)-1] != vm.ClosureTerminatorFlag {
+	if n := len(offs); n >= 2 && isClosureOp(code[offs[n-2]]) && !closureTerminated(code, offs[n-2]) {
 		// disassembleClosure stops silently at the end of the code when the descriptor list has no
 		// terminator; the VM would read on. Reported as the "short" class.
 		return fmt.Sprintf("err %d short", offs[n-2])
@@ -220,6 +220,24 @@ func realBoundaries(fn *vm.BytecodeFunction) (offs []int, errClass string, at in
 	}
 	offs = append(offs, offset)
 	return offs, "", 0
+}
+
+// closureTerminated walks the descriptor list the way opClosure does and reports whether a terminator
+// byte is reached inside the code.
+func closureTerminated(code []byte, off int) bool {
+	pos := off + 1
+	for pos < len(code) {
+		fl := code[pos]
+		if fl == vm.ClosureTerminatorFlag {
+			return true
+		}
+		if fl&byte(vm.UpvalueLongIndexFlag) != 0 {
+			pos += 3
+		} else {
+			pos += 2
+		}
+	}
+	return false
 }
 
 func isClosureOp(b byte) bool {
